@@ -49,6 +49,11 @@ def kernels(torch, gpytorch, d):
     return out
 
 
+# translation-invariant kernels: only these are exercised on inputs with a large common offset (for the others the prior itself
+# grows with the offset and rounding is relative to that scale)
+STATIONARY = {"rbf", "rbf_ard", "matern05", "matern15", "matern25", "rq", "periodic", "pwpoly", "cosine", "scale_rbf", "sum", "prod", "sm"}
+
+
 def geometry(torch, name, n, d, g):
     D = torch.float64
     if name == "spread":
@@ -66,6 +71,12 @@ def geometry(torch, name, n, d, g):
     if name == "clustered":
         c = torch.rand(1, d, generator=g, dtype=D) * 2 - 1
         return c + 1e-3 * torch.randn(n, d, generator=g, dtype=D)
+    if name == "far-offset":
+        # un-normalised coordinates (raw timestamps ...): a large common offset, spread + clustered + one exact duplicate
+        x = torch.rand(n, d, generator=g, dtype=D) * 2 - 1
+        x[1] = x[0] + 1e-3 * torch.randn(d, generator=g, dtype=D)
+        x[2] = x[0]
+        return x + 1e5
     raise ValueError(name)
 
 
@@ -120,6 +131,8 @@ def run_case(torch, gpytorch, c):
     n = 7
     x = geometry(torch, geom, n, d, g)
     xs = torch.rand(3, d, generator=g, dtype=D) * 2 - 1
+    if geom == "far-offset":
+        xs = xs + 1e5
     if dom == "unitball":
         x = x / (1.01 * max(1.0, float(x.norm(dim=-1).max())))
         xs = xs / (1.01 * max(1.0, float(xs.norm(dim=-1).max())))
@@ -306,9 +319,11 @@ def run(ck):
         ck.vacuous("no growth histories generated")
     ks = kernels(torch, gpytorch, 1)
     cases = []
-    geoms = ["spread", "duplicates", "near-coincident", "clustered"]
+    geoms = ["spread", "duplicates", "near-coincident", "clustered", "far-offset"]
     for kname, (_, dom) in ks.items():
         for geom in geoms:
+            if geom == "far-offset" and kname not in STATIONARY:
+                continue
             for ls in ((1e-3, 1e-1, 1.0, 1e1, 1e3) if thorough else (1e-2, 1.0, 1e2)):
                 for d in ((1,) if dom == "d1" else (1, 3)):
                     cases.append(dict(what="gram", kernel=kname, geometry=geom, lengthscale=ls, d=d, seed=ck.seed * 100 + len(cases)))
@@ -317,7 +332,9 @@ def run(ck):
         dom = ks[kname][1]
         sel = hists if thorough else [h for i, h in enumerate(hists) if i % 9 == (len(kname) % 9)]
         for h in sel:
-            for geom in (geoms if thorough else ["duplicates", "near-coincident"]):
+            for geom in (geoms if thorough else ["duplicates", "near-coincident", "far-offset"]):
+                if geom == "far-offset" and kname not in STATIONARY:
+                    continue
                 cases.append(dict(what="growth", kernel=kname, geometry=geom, lengthscale=0.7, d=1 if dom == "d1" else 2, history=list(h), seed=ck.seed * 100 + 7))
     rnd.shuffle(cases)
     items = [dict(cases=cases[i:i + 12]) for i in range(0, len(cases), 12)]
